@@ -17,6 +17,7 @@ var registry = map[string]simkit.World{
 	"C06": fsmworld.C06{},
 	"C07": fsmworld.C07{},
 	"C10": fsmworld.C10{},
+	"C11": fsmworld.C11{},
 	"C13": fsmworld.C13{},
 	"C15": fsmworld.C15{},
 	"C20": archiveworld.World{},
